@@ -354,6 +354,8 @@ pub fn body(case: &Case, out: &Shared) {
     }
     let max_per_file = case.params.get("max_offsets_per_file").copied().unwrap_or(150) as usize;
     let only: Option<usize> = case.params.get("only_mutation").map(|v| *v as usize);
+    let in_child = std::env::var_os("RAINSIM_IN_CHILD").is_some();
+    let dump_derived = case.params.get("dump_derived").copied().unwrap_or(0) != 0;
     let mut rng = Rng::new(mix2(case.run_seed, 0xC0DE));
     let mut mutation_index = 0usize;
     let mut classes: std::collections::BTreeSet<String> = Default::default();
@@ -415,6 +417,20 @@ pub fn body(case: &Case, out: &Shared) {
             if let Some(o) = only {
                 if o != idx {
                     return true;
+                }
+            }
+            if in_child {
+                // progress marker: if this process dies (allocation failure aborts rather than
+                // unwinds) the parent knows which mutation killed it
+                eprintln!("PROGRESS {}", idx);
+                if dump_derived {
+                    let spec = spec_from(st, &writes, &skippable, &plan.keys, &what, &reopen_knobs, class);
+                    let mut c = case.clone();
+                    c.corrupt = Some(spec);
+                    c.plan.ops.clear();
+                    c.params.remove("only_mutation");
+                    c.params.remove("dump_derived");
+                    println!("DERIVED {}", serde_json::to_string(&c).unwrap());
                 }
             }
             with_out(out, |o| {
